@@ -67,16 +67,43 @@ def with_flaky(rng, pcode: str, p: float) -> str:
     return "\n".join(out)
 
 
+def gen_repeat_method(rng) -> tuple[str, list]:
+    """Methods in which command nodes are invoked repeatedly through the real interpreter: a macro with commands
+    called 2-4 times, an Alarm whose body (with commands) fires again and again; first schedule entries arm the alarm."""
+    cmd = lambda: rng.choice(["CmdA", "CmdA", "CmdB", "CmdC", "FlakyC", "CmdNum: 5", "Wait: 0.25s", "Pause: 0.25s"])  # noqa: E731
+    lines: list[str] = []
+    pre: list = []
+    kind = rng.choice(["macro", "alarm", "both"])
+    if kind in ("alarm", "both"):
+        tag = rng.choice(["T0", "T1", "T2"])
+        lines += [f"Alarm: {tag} > 0"] + ["    " + cmd() for _ in range(rng.randrange(1, 3))] + ["    Mark: al"]
+        pre.append(["tag", tag, rng.randrange(1, 4)])
+    if kind in ("macro", "both"):
+        lines += ["Macro: M"] + ["    " + cmd() for _ in range(rng.randrange(1, 3))] + ["    Mark: in"]
+        for k in range(rng.randrange(2, 5)):
+            lines.append("Call macro: M")
+            if rng.random() < 0.6:
+                lines.append(rng.choice([f"Mark: mid{k}", "Wait: 0.5s", "CmdA"]))
+    lines.append(rng.choice(["Wait: 6s", "Mark: end", "Wait: 2s"]))
+    return "\n".join(lines), pre
+
+
 def gen_case(rng, thorough: bool) -> dict:
     from harness.gen_pcode import gen_program, gen_snippet, gen_edit_script
-    malformed = rng.random() < 0.15
-    pcode, stats = gen_program(rng, max_lines=rng.choice([6, 10, 14] + ([24] if thorough else [])),
-                               max_depth=rng.choice([2, 3]), malformed=malformed)
-    pcode = with_flaky(rng, pcode, 0.2)
+    repeat = rng.random() < 0.3
+    malformed = (not repeat) and rng.random() < 0.15
+    pre: list = []
+    if repeat:
+        pcode, pre = gen_repeat_method(rng)
+    else:
+        pcode, stats = gen_program(rng, max_lines=rng.choice([6, 10, 14] + ([24] if thorough else [])),
+                                   max_depth=rng.choice([2, 3]), malformed=malformed)
+        pcode = with_flaky(rng, pcode, 0.2)
+    calm = 0.35 if repeat else 1.0          # repeated-invocation runs get fewer disturbances so that they get far
     sched = []
-    for _ in range(rng.randrange(20, 90 if thorough else 60)):
-        ops = []
-        x = rng.random()
+    for k in range(rng.randrange(40, 80) if repeat else rng.randrange(20, 90 if thorough else 60)):
+        ops = list(pre) if k == 0 else []
+        x = rng.random() / calm
         if x < 0.10:
             ops.append(["cancel", rng.choice(["any", "offered", "offered", "concluded"]), rng.random()])
         elif x < 0.20:
@@ -90,7 +117,7 @@ def gen_case(rng, thorough: bool) -> dict:
         elif x < 0.48:
             ops.append(["edit", gen_edit_script(rng)])
         sched.append(ops)
-    return {"pcode": pcode, "schedule": sched, "malformed": malformed}
+    return {"pcode": pcode, "schedule": sched, "malformed": malformed, "repeat": repeat}
 
 
 def records_engine_case(case: dict, every: int) -> tuple[list[str], list[str]]:
